@@ -27,7 +27,7 @@ impl Family for C17Family {
         FamilyInfo {
             id: "C17",
             level: "exploration",
-            rule: "a simulated U2F host builds raw extended-length frames (register, authenticate with P1 in {3,7,8}, version; with and without trailing Le); the token side runs Request::try_from -> U2fApi::{register,authenticate} -> encode; seeded histories of 1-6 registrations and authentications with key handles of 0-255 bytes, arbitrary counters and presence bytes, unknown handles, on the reference store and the shipped MemoryStore; odd indexes inject store errors and cancellations. Non-trivial = at least one U2F registration or authentication succeeded; distinct = distinct (op kinds, handle length class, outcome) signature.",
+            rule: "a simulated U2F host builds raw extended-length frames (register, authenticate with P1 in {3,7,8}, version; with and without trailing Le); the token side runs Request::try_from -> U2fApi::{register,authenticate} -> encode; seeded histories of 1-6 registrations and authentications with key handles of 0-255 bytes, arbitrary counters and presence bytes, unknown handles, on the reference store and the shipped MemoryStore; odd indexes inject store errors and cancellations; in 1 run of 5 a second authenticator shares the store behind Arc<Mutex>/Arc<RwLock> and keeps its lock busy with slow look-ups under a seeded schedule. Non-trivial = at least one U2F registration or authentication succeeded; distinct = distinct (op kinds, handle length class, outcome) signature.",
             assumptions: &["p256 ECDSA verification is trusted", "the glue between parsed request and U2fApi (choosing the key handle, counter and presence byte) is the simulated token firmware"],
             real: &["passkey_types::u2f::{Request::try_from, RegisterResponse::encode, AuthenticationResponse::encode, Version::encode}", "U2fApi::{register,authenticate}", "Passkey::wrap_u2f_registration_request", "MemoryStore"],
             stubs: &["executor", "SimStore seam", "U2F host and token glue", "seeded RNG behind the hook"],
@@ -152,6 +152,26 @@ impl Family for C17Family {
             actor.ops.push(plain_op(sign));
         }
         c.actors.push(actor);
+        // one run in five: a second authenticator shares the store and keeps its lock busy with slow
+        // look-ups for an RP that holds nothing; a U2F exchange that finds the lock taken must wait for it
+        // and answer as it would have on a free store (round 12, C17r12-A)
+        if r.chance(1, 5) {
+            c.wrap = *r.pick(&[Wrap::ArcMutex, Wrap::ArcRwLock]);
+            let mut other = gen_actor(&mut r);
+            other.hmac = HmacCfg::None;
+            for _ in 0..r.range(2, 4) {
+                let mut s = gen_ga(&mut r, "busy.example.net");
+                s.allow = None;
+                s.up = true;
+                s.uv = false;
+                s.prf = None;
+                let mut op = plain_op(OpKind::GetAssertion(s));
+                op.yields = vec![3, 3, 3, 3];
+                other.ops.push(op);
+            }
+            c.actors.push(other);
+            c.schedule = gen_schedule(&mut r, 96);
+        }
         Scenario { family: "C17".into(), batch: if faulty { "faults" } else { "strict" }.into(), seed: master, index, body: Body::Ceremony(c) }
     }
 
@@ -159,7 +179,7 @@ impl Family for C17Family {
         let c = ceremony_of(scn);
         let rec = run_and_measure(c, stats);
         let mut j = Judge::new("C17", scn, &rec);
-        for p in ["key_handle_registered_again", "registration_verified", "authentication_verified", "unknown_handle_rejected", "empty_key_handle", "key_handle_255", "frame_with_le", "save_error_reported", "authentication_for_other_application", "version_frame_with_nonzero_le", "registration_response_encoded_with_certificate", "authenticator_without_presence_or_verification_capability", "near_miss_key_handle", "ctap2_assertion_with_u2f_credential", "imported_credential_with_user_handle"] {
+        for p in ["key_handle_registered_again", "registration_verified", "authentication_verified", "unknown_handle_rejected", "empty_key_handle", "key_handle_255", "frame_with_le", "save_error_reported", "authentication_for_other_application", "version_frame_with_nonzero_le", "registration_response_encoded_with_certificate", "authenticator_without_presence_or_verification_capability", "near_miss_key_handle", "ctap2_assertion_with_u2f_credential", "imported_credential_with_user_handle", "u2f_exchange_on_contended_store"] {
             stats.declare_probe(p);
         }
         if let Some(p) = &rec.panic {
@@ -186,6 +206,9 @@ impl Family for C17Family {
         }
         let mut sig = crate::rng::Fnv::new();
         let mut nontrivial = false;
+        if c.actors.len() > 1 {
+            stats.probe("u2f_exchange_on_contended_store");
+        }
         for o in &rec.ops {
             let spec = op_spec(c, o);
             sig.write_str(&format!("{}|{:?}", short_result(&o.result).split(' ').next().unwrap_or(""), o.resolved.u2f_handle.as_ref().map(|h| (h.is_empty(), h.len() == 255))));
